@@ -43,6 +43,9 @@ pub fn kb_source(depth: usize) -> Vec<String> {
     v.push("t13($X) :- num($X), ($X == 1; $X == 12), !.".into());
     v.push("t14($X) :- color($X), not(not($X = red)).".into());
     v.push("t15($X, $Y) :- include(f($_), [f(1), g(2), f(3)], $X), exclude(f($_), [f(1), g(2)], $Y).".into());
+    // two atoms that differ only by a blank inside
+    v.push("likes(Mary Ann, tea).".into());
+    v.push("likes(MaryAnn, coffee).".into());
     let vars: Vec<String> = (0..depth).map(|i| format!("$N{}", i)).collect();
     let gen: String = vars.iter().map(|n| format!("num({})", n)).collect::<Vec<_>>().join(", ");
     // never succeeds, needs the whole search space to find that out
@@ -82,9 +85,20 @@ pub fn load_kb(depth: usize) -> KnowledgeBase {
     kb
 }
 
-pub const QUERIES: [&str; 21] = ["t1($X)", "t2($A, $B)", "t3($X)", "t4($X, $L)", "t5($N)", "t6($X)", "t7($X)", "pair($P, $Q)", "num(13)",
+pub const QUERIES: [&str; 23] = ["t1($X)", "t2($A, $B)", "t3($X)", "t4($X, $L)", "t5($N)", "t6($X)", "t7($X)", "pair($P, $Q)", "num(13)",
                                  "slow($S)", "trap($T)", "mixed($M)",
-                                 "t8($X)", "t9($X)", "t10($L)", "t11($S)", "t12($N)", "t13($X)", "t14($X)", "t15($X, $Y)", "med($D)"];
+                                 "t8($X)", "t9($X)", "t10($L)", "t11($S)", "t12($N)", "t13($X)", "t14($X)", "t15($X, $Y)", "med($D)", "likes(Mary Ann, $W)", "likes(MaryAnn, $W)"];
+/// Steps with a query number >= ALT run `thing($X)` against a *different*, small knowledge base that is
+/// built for the step and dropped after it (so that two of them are likely to live at the same
+/// address one after the other): variant 0 has ground facts, variant 1 a rule with variables.
+pub const ALT: usize = 100;
+pub fn alt_kb(variant: usize) -> KnowledgeBase {
+    let src: Vec<&str> = if variant % 2 == 0 { vec!["thing(one).", "thing(two).", "item(zero)."] } else { vec!["thing($X) :- item($X).", "thing([$H | $T]) :- item($H), $T = [].", "item(three)."] };
+    let mut kb = KnowledgeBase::new();
+    for s in src { add_rules(&mut kb, vec![parse_rule(s).expect("alt kb rule")]); }
+    kb
+}
+pub fn query_text(q: usize) -> &'static str { if q >= ALT { "thing($X)" } else { QUERIES[q] } }
 /// index of the query that searches for a few seconds without a timer (driven by next_solution only)
 pub const MED: usize = 20;
 pub const LAST_SLOW: usize = 11;
@@ -179,7 +193,7 @@ pub fn hist_main(args: &[String]) -> i32 {
     let kb = load_kb(depth);
     let mut lines = vec![];
     for (q, d) in &steps {
-        let o = run_step(&kb, QUERIES[*q], d);
+        let o = if *q >= ALT { let kb2 = Box::new(alt_kb(*q - ALT)); run_step(&kb2, query_text(*q), d) } else { run_step(&kb, QUERIES[*q], d) };
         lines.push(format!("{}\t{}\t{}", o.elapsed_ms, o.answers.join("\u{1}"), o.output.replace('\n', "\u{2}")));
     }
     std::fs::write(result, lines.join("\n")).ok();
@@ -195,7 +209,7 @@ fn run_child(depth: usize, steps: &[(usize, Driver)], tag: &str) -> Result<Vec<O
     let mut child = std::process::Command::new(exe).args(["--hist", &depth.to_string(), &result, &spec])
         .stdout(std::process::Stdio::null()).stderr(std::process::Stdio::null()).spawn().map_err(|e| e.to_string())?;
     // generous watchdog: 20 s per step
-    let limit = std::time::Duration::from_secs(20 * steps.len() as u64 + 20);
+    let limit = std::time::Duration::from_secs(90 * steps.len() as u64 + 60);
     let t0 = Instant::now();
     loop {
         match child.try_wait() {
@@ -252,7 +266,8 @@ fn step_alphabet() -> Vec<(usize, Driver)> {
     vec![(0, Driver::Ns), (0, Driver::Reask), (1, Driver::Ns), (1, Driver::SolveAll), (2, Driver::Solve(3)), (3, Driver::Abandon(2)), (4, Driver::SolveAll),
          (5, Driver::Ns), (6, Driver::Reask), (7, Driver::Abandon(1)), (7, Driver::SolveAll), (8, Driver::Solve(2)),
          (9, Driver::SolveAll), (9, Driver::Solve(5)), (10, Driver::Solve(1)), (11, Driver::SolveAll),
-         (12, Driver::Ns), (13, Driver::SolveAll), (13, Driver::Abandon(1)), (14, Driver::Solve(2)), (15, Driver::Ns), (16, Driver::SolveAll), (17, Driver::Reask), (18, Driver::Ns), (19, Driver::SolveAll), (MED, Driver::Ns)]
+         (12, Driver::Ns), (13, Driver::SolveAll), (13, Driver::Abandon(1)), (14, Driver::Solve(2)), (15, Driver::Ns), (16, Driver::SolveAll), (17, Driver::Reask), (18, Driver::Ns), (19, Driver::SolveAll), (MED, Driver::Ns),
+         (21, Driver::Ns), (22, Driver::SolveAll), (ALT, Driver::Ns), (ALT + 1, Driver::SolveAll)]
 }
 
 impl C22 {
@@ -270,7 +285,7 @@ impl C22 {
             let n = r.range(3, 6);
             let mut h = vec![];
             for _ in 0..n {
-                let q = r.below(QUERIES.len());
+                let q = if r.chance(1, 8) { ALT + r.below(2) } else { r.below(QUERIES.len()) };
                 let d = if q == MED { Driver::Ns } else if q >= FIRST_SLOW && q <= LAST_SLOW { if r.chance(1, 2) { Driver::SolveAll } else { Driver::Solve(r.range(1, 5)) } }
                         else { match r.below(5) { 0 => Driver::Ns, 1 => Driver::Abandon(r.range(1, 3)), 2 => Driver::Reask, 3 => Driver::Solve(r.range(1, 6)), _ => Driver::SolveAll } };
                 h.push((q, d));
@@ -279,15 +294,15 @@ impl C22 {
         }
         C22 { depth, hist, baseline: HashMap::new() }
     }
-    fn show(&self, h: &[(usize, Driver)]) -> String { h.iter().map(|(q, d)| format!("{} via {}", QUERIES[*q], d.code())).collect::<Vec<_>>().join(" ; ") }
+    fn show(&self, h: &[(usize, Driver)]) -> String { h.iter().map(|(q, d)| format!("{}{} via {}", query_text(*q), if *q >= ALT { format!(" on small knowledge base #{}", *q - ALT) } else { String::new() }, d.code())).collect::<Vec<_>>().join(" ; ") }
 }
 
 impl Workload for C22 {
     fn total(&self) -> u64 { self.hist.len() as u64 }
     fn rule(&self) -> String {
-        format!("one fresh process per history; histories: all ordered pairs over a 26-step alphabet (21 queries incl. one that searches for seconds without a timer and incl. not/cut/print with constant and variable-held formats/append/count/include/arithmetic/recursion and three that exceed the 1 s limit; drivers next_solution to exhaustion, k answers then abandon, re-ask 3x after exhaustion, solve x n, solve_all), all triples over a 6-step sub-alphabet, plus seeded random histories of 3-6 steps; oracle: every step's answers and output equal those of the same (query, driver) run as the first action of a fresh process; slow searches are sized at run time (12^{} combinations); non-trivial when the history contains a timed-out, abandoned or re-asked step before its last step; distinct by history text", self.depth)
+        format!("one fresh process per history; histories: all ordered pairs over a 30-step alphabet (23 queries on the main knowledge base - two of them differ only by a blank inside an atom - plus one query on two small knowledge bases that are built and dropped per step; incl. one that searches for seconds without a timer and incl. not/cut/print with constant and variable-held formats/append/count/include/arithmetic/recursion and three that exceed the 1 s limit; drivers next_solution to exhaustion, k answers then abandon, re-ask 3x after exhaustion, solve x n, solve_all), all triples over a 6-step sub-alphabet, plus seeded random histories of 3-6 steps; oracle: every step's answers and output equal those of the same (query, driver) run as the first action of a fresh process; slow searches are sized at run time (12^{} combinations); non-trivial when the history contains a timed-out, abandoned or re-asked step before its last step; distinct by history text", self.depth)
     }
-    fn exhaustive_part(&self) -> Option<String> { Some("all 676 ordered step pairs and all 216 triples over the sub-alphabet".into()) }
+    fn exhaustive_part(&self) -> Option<String> { Some("all 900 ordered step pairs and all 216 triples over the sub-alphabet".into()) }
     fn describe(&mut self, idx: u64) -> String { json::obj(&[("history", json::esc(&self.show(&self.hist[idx as usize].clone())))]) }
     fn run(&mut self, idx: u64) -> Outcome {
         let h = self.hist[idx as usize].clone();
@@ -313,7 +328,23 @@ impl Workload for C22 {
                 }
             }
         }
-        let obs = match run_child(self.depth, &h, "hist") { Ok(o) => o, Err(e) => { out.verdict = Verdict::Inconclusive(format!("history process failed: {}", e)); return out; } };
+        let obs = match run_child(self.depth, &h, "hist") {
+            Ok(o) => o,
+            Err(e) if e.starts_with("child exited") => {
+                // every step ran fine as the first action of a fresh process (the baselines exist); a
+                // history process that dies, twice, is an observation about the history
+                match run_child(self.depth, &h, "hist2") {
+                    Ok(o) => { out.count("history_process_died_once", 1); o }
+                    Err(e2) if e2.starts_with("child exited") => {
+                        out.evals += 1;
+                        out.violate(format!("history-died|{}", text), json::obj(&[("kind", json::esc("the process running the history died (panic or abort), twice, although every step alone runs fine in a fresh process")), ("history", json::esc(&text)), ("detail", json::esc(&format!("{} / {}", e, e2)))]));
+                        return out;
+                    }
+                    Err(e2) => { out.verdict = Verdict::Inconclusive(format!("history process failed: {}", e2)); return out; }
+                }
+            }
+            Err(e) => { out.verdict = Verdict::Inconclusive(format!("history process failed: {}", e)); return out; }
+        };
         out.count("history_processes", 1);
         for (i, ((q, d), o)) in h.iter().zip(&obs).enumerate() {
             out.evals += 1;
@@ -326,7 +357,7 @@ impl Workload for C22 {
                 }
                 out.violate(format!("history|{}|step{}", text, i + 1),
                     json::obj(&[("kind", json::esc("a step's observations differ from the fresh-process baseline")), ("history", json::esc(&text)), ("step", (i + 1).to_string()),
-                                ("query", json::esc(QUERIES[*q])), ("driver", json::esc(&d.code())), ("baseline", obs_json(b)), ("in_history", obs_json(o))]));
+                                ("query", json::esc(query_text(*q))), ("driver", json::esc(&d.code())), ("baseline", obs_json(b)), ("in_history", obs_json(o))]));
                 return out;
             }
         }
